@@ -10,6 +10,7 @@ package quadtree
 //@ spec noNaNs(h maxHeap) bool = forall i :: 0 <= i && i < len(h) ==> !isnan(h[i].distance)
 
 //@ func (*maxHeap).Push(h, point, distance)
+//@   opt timeout=120
 //@   requires h != nil && len(*h) < cap(*h) && isHeap(*h) && noNaNs(*h) && !isnan(distance)
 //@   ensures len(*h) == old(len(*h)) + 1 && (*h).ref == old((*h).ref) && (*h).off == old((*h).off) && cap(*h) == old(cap(*h))
 //@   ensures isHeap(*h) && noNaNs(*h)
@@ -19,6 +20,7 @@ package quadtree
 //@   loop 1: invariant forall j :: 1 <= j && j < len(*h) && (j+1)/2 - 1 == i && i >= 1 ==> (*h)[(i+1)/2 - 1].distance >= (*h)[j].distance
 
 //@ func (*maxHeap).Pop(h)
+//@   opt timeout=120
 //@   requires h != nil && len(*h) >= 1 && isHeap(*h) && noNaNs(*h)
 //@   ensures len(*h) == old(len(*h)) - 1 && (*h).ref == old((*h).ref) && (*h).off == old((*h).off) && cap(*h) == old(cap(*h))
 //@   ensures isHeap(*h) && noNaNs(*h)
